@@ -1858,6 +1858,8 @@ class Interp:
                 d = ctx.branch(ctx.fresh('raises_%s' % et, BoolS))
                 if d:
                     ctx.ghost['raised_by:' + ftxt] = True
+                    if a.ghost:
+                        a.ghost(self, env, None)       # the call happened (and raised)
                     raise PyRaise(et, ExcInst(et))
         pre = snapshot(cenv, {})
         for path in a.modifies:
